@@ -219,16 +219,20 @@ def create_redist_dict(
         reverse=True,
     )
     realloc = {}
-    for pair in sorted_scores:
-      if is_outlier(pair[1], total_score, group_resource, dim - 1):
+    for pos, pair in enumerate(sorted_scores):
+      # Sum the scores still to be served instead of subtracting from a running
+      # total: with scale-disparate scores the subtraction cancels
+      # catastrophically (the remainder can even turn negative), which yields
+      # negative ranks or allocations above the budget.
+      total_score = sum(float(s) for _, s in sorted_scores[pos:])
+      score = float(pair[1])
+      if is_outlier(score, total_score, group_resource, dim - 1):
         realloc.update({pair[0]: dim})
         group_resource -= (dim - 1)
-        total_score -= pair[1]
       else:
         unit_rsc = group_resource / total_score if total_score else 0.0
-        realloc.update({pair[0]: rd(pair[1] * unit_rsc)})
-        group_resource -= (rd(pair[1] * unit_rsc) - 1)
-        total_score -= pair[1]
+        realloc.update({pair[0]: rd(score * unit_rsc)})
+        group_resource -= (rd(score * unit_rsc) - 1)
 
     for key in realloc:
       assert realloc[key] <= dim, (key, realloc[key], dim)
